@@ -372,7 +372,11 @@ class SutHang(Exception):
 CALL_LIMIT_S = 30.0
 
 
+_HANG_SEEN = [False]
+
+
 def _on_alarm(signum, frame):
+    _HANG_SEEN[0] = True
     raise SutHang("API call still running after %.0f s" % CALL_LIMIT_S)
 
 
@@ -394,7 +398,8 @@ def call(fn, recorder=None):
     use_alarm = threading.current_thread() is threading.main_thread()
     if use_alarm:
         old_handler = signal.signal(signal.SIGALRM, _on_alarm)
-        signal.setitimer(signal.ITIMER_REAL, CALL_LIMIT_S)
+        # once a call of this process was found not to terminate, later calls get a short leash (the verdict is in already)
+        signal.setitimer(signal.ITIMER_REAL, CALL_LIMIT_S if not _HANG_SEEN[0] else 3.0)
     try:
         with warnings.catch_warnings():
             warnings.simplefilter("ignore")
